@@ -170,3 +170,22 @@ mod test {
         assert_eq!(buf.as_str(), "01238");
     }
 }
+
+/// Verification hooks (see `emf::verif_hooks`); only compiled by `cargo kani`.
+#[cfg(kani)]
+#[doc(hidden)]
+#[allow(missing_docs)]
+pub mod verif_hooks {
+    use super::*;
+
+    pub fn write_all_vectored<V: AsRef<[u8]>, const N: usize>(
+        bufs: SmallVec<[V; N]>,
+        output: &mut impl io::Write,
+    ) -> io::Result<()> {
+        super::write_all_vectored(bufs, output)
+    }
+
+    pub fn advance_slices(slices: &mut &mut [&[u8]], count: usize) {
+        super::advance_slices(slices, count)
+    }
+}
